@@ -521,6 +521,37 @@ func insertConfigEntryWithTxn(tx WriteTxn, idx uint64, conf structs.ConfigEntry)
 			if err := upsertKindServiceName(tx, idx, structs.ServiceKindDestination, sn); err != nil {
 				return fmt.Errorf("failed to persist service name: %v", err)
 			}
+		} else {
+			// The entry is being rewritten without a Destination. If the stored
+			// entry described one, undo what that registered (same steps as
+			// deleting it), otherwise the service keeps being listed as a
+			// destination forever.
+			_, prev, err := configEntryTxn(tx, nil, kind, conf.GetName(), conf.GetEnterpriseMeta())
+			if err != nil {
+				return fmt.Errorf("failed config entry lookup: %s", err)
+			}
+			if old, ok := prev.(*structs.ServiceConfigEntry); ok && old != nil && old.Destination != nil {
+				sn := structs.NewServiceName(conf.GetName(), conf.GetEnterpriseMeta())
+				gsKind, err := GatewayServiceKind(tx, sn.Name, &sn.EnterpriseMeta)
+				if err != nil {
+					return fmt.Errorf("failed to get gateway service kind for service %s: %v", sn.Name, err)
+				}
+				if gsKind == structs.GatewayServiceKindDestination {
+					gsKind = structs.GatewayServiceKindUnknown
+				}
+				if err := checkGatewayWildcardsAndUpdate(tx, idx, &sn, nil, gsKind); err != nil {
+					return fmt.Errorf("failed updating gateway mapping: %s", err)
+				}
+				if err := cleanupGatewayWildcards(tx, idx, sn, true); err != nil {
+					return fmt.Errorf("failed to cleanup gateway mapping: \"%s\"; err: %v", sn, err)
+				}
+				if err := checkGatewayAndUpdate(tx, idx, &sn, gsKind); err != nil {
+					return fmt.Errorf("failed updating gateway mapping: %s", err)
+				}
+				if err := cleanupKindServiceName(tx, idx, sn, structs.ServiceKindDestination); err != nil {
+					return fmt.Errorf("failed to cleanup service name: \"%s\"; err: %v", sn, err)
+				}
+			}
 		}
 	case structs.SamenessGroup:
 		err := checkSamenessGroup(tx, conf)
